@@ -19,6 +19,12 @@ LP/User.vos LP/User.vok LP/User.required_vos: LP/User.v LP/ILP.vos
 LP/UserSound.vo LP/UserSound.glob LP/UserSound.v.beautified LP/UserSound.required_vo: LP/UserSound.v LP/User.vo LP/OptTest.vo
 LP/UserSound.vio: LP/UserSound.v LP/User.vio LP/OptTest.vio
 LP/UserSound.vos LP/UserSound.vok LP/UserSound.required_vos: LP/UserSound.v LP/User.vos LP/OptTest.vos
+LP/Transform.vo LP/Transform.glob LP/Transform.v.beautified LP/Transform.required_vo: LP/Transform.v LP/User.vo
+LP/Transform.vio: LP/Transform.v LP/User.vio
+LP/Transform.vos LP/Transform.vok LP/Transform.required_vos: LP/Transform.v LP/User.vos
+LP/TransformSound.vo LP/TransformSound.glob LP/TransformSound.v.beautified LP/TransformSound.required_vo: LP/TransformSound.v LP/Transform.vo
+LP/TransformSound.vio: LP/TransformSound.v LP/Transform.vio
+LP/TransformSound.vos LP/TransformSound.vok LP/TransformSound.required_vos: LP/TransformSound.v LP/Transform.vos
 LP/OptTest.vo LP/OptTest.glob LP/OptTest.v.beautified LP/OptTest.required_vo: LP/OptTest.v LP/Cert.vo
 LP/OptTest.vio: LP/OptTest.v LP/Cert.vio
 LP/OptTest.vos LP/OptTest.vok LP/OptTest.required_vos: LP/OptTest.v LP/Cert.vos
